@@ -265,6 +265,20 @@ func checkApply(c ApplyCase) ev.Verdict {
 			v.Err = fmt.Errorf("ApplyIndent (EscapeHTML=%v) is not Apply's output re-indented with %q:\n got:  %q\n want: %q", esc, c.Indent, ri.Out, buf.Bytes())
 			return v
 		}
+		{
+			// insignificant whitespace around and inside the input document is none of the output's business
+			padded := " \n" + strings.ReplaceAll(doc.Text(esc), ",", ",\n ") + "\r\n\n"
+			if d2, err := ref.Parse([]byte(padded)); err == nil && ref.EqualOrdered(d2, doc) {
+				rp := lib.Apply(padded, ref.OpsText(ops, esc), lib.Options{Neg: true, Esc: esc, Indent: c.Indent})
+				if rp.Panic != nil {
+					return ev.Verdict{Err: rp.Panic}
+				}
+				if rp.Err != nil || !bytes.Equal(rp.Out, ri.Out) {
+					v.Err = fmt.Errorf("ApplyIndent (EscapeHTML=%v) of the same document with insignificant whitespace around and inside it differs:\n padded: %q %v\n plain:  %q", esc, rp.Out, rp.Err, ri.Out)
+					return v
+				}
+			}
+		}
 		if esc {
 			// the default-options entry point must agree with the explicit one
 			var out []byte
